@@ -32,7 +32,8 @@ def invariance_loss(proj_embed, num_augment):
     """Loss for invariant representation on projected nodes
     Corresponds to `L_inv` in the SymNCO paper
     """
-    pe = rearrange(proj_embed, "(b a) ... -> b a ...", a=num_augment)
+    # the augmented batch is laid out (augmentation, instance): compare the copies of the SAME instance
+    pe = rearrange(proj_embed, "(a b) ... -> b a ...", a=num_augment)
     similarity = sum(
         [cosine_similarity(pe[:, 0], pe[:, i], dim=-1) for i in range(1, num_augment)]
     )
